@@ -12,6 +12,8 @@ PROFILES = {
     "C08": dict(gen=dict(napps=2, nsides=2, steps=70), keys=("c08_survives_other_open", "c08_deleted_after_last_close")),
     "C12": dict(gen=dict(napps=2, nsides=3, steps=60), keys=("c12_must_survive",)),
     "C15": dict(gen=dict(napps=2, nsides=4, steps=70), keys=("c15_classified_mailbox", "c15_classified_nameplate"), usage_only=True),
+    "C17": dict(gen=dict(napps=2, nsides=3, steps=70, p_illegal=0.35, hostile=True),
+                keys=("rejected_cmd",)),
     "C16": dict(gen=dict(napps=2, nsides=3, steps=60), keys=("c16_blur_bind", "c16_blur_mailbox-close"), blur_only=True),
 }
 
